@@ -464,8 +464,12 @@ class DeepCopyMethod(MethodDescriptor):
     method_name = "__deepcopy__"
 
     @staticmethod
-    def deepcopy(self, memo):
-        if self.__spec_class__.frozen or self.__spec_class__.do_not_copy:
+    def deepcopy(self, memo, force=False):
+        # Frozen instances are immutable and hence safely shared; `force` is
+        # used by the copy-on-write helpers, which need a new instance.
+        if (
+            self.__spec_class__.frozen and not force
+        ) or self.__spec_class__.do_not_copy:
             return self
         new = self.__class__.__new__(self.__class__)
         for attr, value in self.__dict__.items():
